@@ -157,6 +157,50 @@ fn mutants(prog: &Value) -> Vec<(String, Value)> {
             _ => {}
         }
     }
+    // scoping between match clauses: a name bound by the pattern of one clause is used in the next clause
+    // typing of blocks: a block that ends with a statement has type () wherever its value is used
+    for path in &paths {
+        let n = get(prog, path);
+        match n["k"].as_str().unwrap_or("") {
+            "match" => {
+                let arms = n["arms"].as_array().cloned().unwrap_or_default();
+                for i in 0..arms.len() {
+                    let mut names: Vec<(String, Value)> = vec![];
+                    bound_names(&arms[i]["p"], &mut names);
+                    for j in 0..arms.len() {
+                        if i == j || arms[j]["b"]["k"] != "block" { continue; }
+                        for (name, t) in names.iter().take(1) {
+                            let z = json!([0, 0, 0, 0]);
+                            let use_stmt = json!({"k":"let","p":{"k":"pid","n":"zz_s","ty":t,"m":z},"e":{"k":"var","n":name,"ty":t,"m":z},"m":z});
+                            let mut x = n.clone();
+                            // the body of a clause is the block the parser wraps around its single statement: the use goes into
+                            // a block that becomes that single statement
+                            let mut ss = arms[j]["b"]["ss"].as_array().cloned().unwrap_or_default();
+                            ss.insert(0, use_stmt);
+                            let inner = json!({"k":"block","ss":ss,"ty":arms[j]["b"]["ty"],"m":z});
+                            x["arms"][j]["b"]["ss"] = json!([{"k":"expr","e":inner,"m":z}]);
+                            emit("binder-of-another-clause", path, x, &mut out);
+                        }
+                    }
+                }
+            }
+            "block" => {
+                let ss = n["ss"].as_array().cloned().unwrap_or_default();
+                if let Some(last) = ss.last() {
+                    let unit = |t: &Value| t["k"] == "tup" && t["fs"].as_array().map(|a| a.is_empty()).unwrap_or(false);
+                    if last["k"] == "expr" && !unit(&last["e"]["ty"]) && !unit(&n["ty"]) {
+                        let z = json!([0, 0, 0, 0]);
+                        let mut x = n.clone();
+                        let mut ss2 = ss.clone();
+                        ss2.push(json!({"k":"let","p":{"k":"pid","n":"zz_u","ty":{"k":"bool"},"m":z},"e":{"k":"true","ty":{"k":"bool"},"m":z},"m":z}));
+                        x["ss"] = Value::Array(ss2);
+                        emit("block-ends-with-statement", path, x, &mut out);
+                    }
+                }
+            }
+            _ => {}
+        }
+    }
     // scoping: a name bound by a loop pattern, inside a loop body or inside a block / branch is used right after that statement
     fn bound_names(p: &Value, out: &mut Vec<(String, Value)>) {
         match p["k"].as_str().unwrap_or("") {
@@ -322,5 +366,28 @@ pub fn cmd_printer_debug(args: &[String]) {
         let Ok(base) = project(&src) else { continue };
         let rendered = printer::program(&base);
         match project(&rendered) { Ok(back) => if let Some(d) = first_diff(&strip(&base), &strip(&back), String::new()) { println!("DIFF {d}"); shown += 1; }, Err(e) => { println!("ERR {e}\n{rendered}"); shown += 1; } }
+    }
+}
+
+/// types-texts <cases.ndjson> <events.ndjson>: cases {id, rule, prog (AST), src}; the real checker's verdict on src
+/// (taken three times) is recorded as a Types event (the AST is the one the text was rendered from)
+pub fn cmd_texts(args: &[String]) {
+    quiet_panics();
+    let mut w = writer(&args[1]);
+    for line in read_lines(&args[0]) {
+        let c: Value = serde_json::from_str(&line).unwrap();
+        let src = c["src"].as_str().unwrap_or("");
+        let (mut accepted, mut panic, mut msg) = (false, false, String::new());
+        for _ in 0..3 {
+            match guarded(|| garble_lang::check(src).map(|_| ())) {
+                Ok(Ok(())) => accepted = true,
+                Ok(Err(e)) => msg = e.prettify(src).chars().take(200).collect(),
+                Err(m) => { panic = true; msg = m; }
+            }
+        }
+        // an accepted program is also compiled: a compiler panic on an accepted program is recorded
+        let mut compile_panic = String::new();
+        if accepted { if let Err(m) = guarded(|| garble_lang::compile(src).map(|_| ())) { compile_panic = m; } }
+        emit(&mut w, &json!({"ev":"Types","id":c["id"],"rule":c["rule"],"base":false,"prog":c["prog"],"accepted":accepted,"panic":panic,"roundtrip":true,"src":src,"msg":msg,"compile_panic":compile_panic}));
     }
 }
